@@ -5,7 +5,7 @@
 From V Require Import Model.TpduRun Spec.Gsm0340 Proofs.SmsOctetTables Proofs.TpduRoundtrip.
 From Coq Require Import ZifyN ZifyNat ZifyBool.
 Open Scope N_scope.
-Open Scope string_scope.
+Local Open Scope string_scope.
 
 (* the parameters of GSM 03.40 9.2.2.1 under the Go field names *)
 Definition deliver_flags_named (t : s_deliver) (fl : list N) : Prop :=
